@@ -29,12 +29,13 @@ let cfg_of auth wr svw comp swr =
 
 let dir_of dir = Stdlib.List.map (fun e -> match Stdlib.String.split_on_char ':' e with
     | [n; "D"] -> (bytes_of_hex n, DDir)
+    | [n; "E"] -> (bytes_of_hex n, DErr)
     | [n; "F"; v] -> (bytes_of_hex n, DFile (bytes_of_hex v))
     | _ -> failwith "dir") (split_on ',' dir)
 
 let dir_str d =
   let out = Stdlib.List.sort compare (Stdlib.List.map (fun (n, e) -> match e with
-      | DDir -> hex_of_bytes n ^ ":D" | DFile v -> hex_of_bytes n ^ ":F:" ^ hex_of_bytes v) d) in
+      | DDir -> hex_of_bytes n ^ ":D" | DErr -> hex_of_bytes n ^ ":E" | DFile v -> hex_of_bytes n ^ ":F:" ^ hex_of_bytes v) d) in
   if out = [] then "-" else Stdlib.String.concat "," out
 
 let register () =
@@ -130,6 +131,16 @@ let register () =
         with Drv_c15.Table_miss w -> "ERR table miss " ^ w)
     | _ -> "ERR args");
 
+  (* c14.indexproxy <budget> <budget upstream> <script> <codec tab> -> data:<canonical hex>|missing|error <n> *)
+  Drv.register "c14.indexproxy" (fun a -> match a with
+    | [budget; bup; script; itab] ->
+        let dec = Drv_c15.partial_of "idx_decode" (Drv_c15.parse_tab itab) and enc = (fun (x : BinNums.coq_N list) -> x) in
+        (try
+          let (r, n) = proxied_get_index dec enc (n_of_string budget) (n_of_string bup) (script_of script) in
+          (match r with IData ix -> "data:" ^ hex_of_bytes ix | IMissing -> "missing" | IErr -> "error") ^ " " ^ string_of_n n
+        with Drv_c15.Table_miss w -> "ERR table miss " ^ w)
+    | _ -> "ERR args");
+
   (* ---- casync protocol framing ---- *)
   Drv.register "c14.writemsg" (fun a -> match a with
     | [t; body] -> hex_of_bytes (ProtocolSession.write_message { ProtocolSession.m_type = n_of_string t; ProtocolSession.m_body = bytes_of_hex body })
@@ -138,6 +149,23 @@ let register () =
     | [stream] -> (match ProtocolSession.read_message (bytes_of_hex stream) with
         | ProtocolSession.RMsg (m, rest) -> Printf.sprintf "msg %s %s %s" (string_of_n m.ProtocolSession.m_type) (hex_of_bytes m.ProtocolSession.m_body) (hex_of_bytes rest)
         | ProtocolSession.RErr -> "error")
+    | _ -> "ERR args");
+
+  (* ---- one protocol session over a LocalStore: c14.session2 <store uncompressed> <store skip verify>
+     <files id:filebytes,...> <failing ids> <requested ids> <zdecomp tab> <zcomp tab> ---- *)
+  Drv.register "c14.session2" (fun a -> match a with
+    | [unc; skip; files; failing; ids; ztab; ctab] ->
+        let zd = Drv_c15.partial_of "zdecomp" (Drv_c15.parse_tab ztab) and zc = Drv_c15.total_of "zcomp" (Drv_c15.parse_tab ctab) in
+        let ls = { ls_files = files_of files; ls_uncompressed = Drv_c15.bool_of unc; ls_skip_verify = Drv_c15.bool_of skip } in
+        let fails = Stdlib.List.map Sha256.id_of_hex (split_on ',' failing) in
+        let store i = if Stdlib.List.mem i fails then GFail else local_get Sha256.h_model zd ls i in
+        (try
+          let rs = ProtocolSession.session Sha256.h_model zc zd store (Stdlib.List.map Sha256.id_of_hex (split_on ',' ids)) in
+          let out = Stdlib.List.map (fun r -> match r with
+              | ProtocolSession.PData c -> (match chunk_data zd c with Some d -> "D:" ^ hex_of_bytes d | None -> "D:?")
+              | ProtocolSession.PMissing -> "M" | ProtocolSession.PErr -> "E") rs in
+          if out = [] then "-" else Stdlib.String.concat "," out
+        with Drv_c15.Table_miss w -> "ERR table miss " ^ w)
     | _ -> "ERR args");
 
   (* ---- one protocol session: c14.session <present id:data,...> <failing ids> <requested ids> <zdecomp tab> <zcomp tab>
